@@ -391,6 +391,9 @@ pub struct ConstModel<T: Sc> {
     pub m: usize,
     pub params: DVector<T>,
     pub phi: DMatrix<T>,
+    /// 0: evaluates; 1: `eval` fails; 2: `set_params` fails; 3: a basis value is NaN (C18: the
+    /// problem must still be BUILT, at the model's parameters, with nothing cached)
+    pub mode: u8,
 }
 impl<T: Sc> SeparableNonlinearModel for ConstModel<T> {
     type ScalarType = T;
@@ -405,6 +408,9 @@ impl<T: Sc> SeparableNonlinearModel for ConstModel<T> {
         self.n
     }
     fn set_params(&mut self, parameters: OVector<T, Dyn>) -> Result<(), HErr> {
+        if self.mode == 2 {
+            return Err(HErr("const model: set_params rejected".into()));
+        }
         self.params = parameters;
         Ok(())
     }
@@ -412,6 +418,14 @@ impl<T: Sc> SeparableNonlinearModel for ConstModel<T> {
         self.params.clone()
     }
     fn eval(&self) -> Result<OMatrix<T, Dyn, Dyn>, HErr> {
+        if self.mode == 1 {
+            return Err(HErr("const model: eval failed".into()));
+        }
+        if self.mode == 3 && self.n > 0 {
+            let mut m = self.phi.clone();
+            m[(self.n - 1, 0)] = T::of(f64::NAN);
+            return Ok(m);
+        }
         Ok(self.phi.clone())
     }
     fn eval_partial_deriv(&self, _k: usize) -> Result<OMatrix<T, Dyn, Dyn>, HErr> {
